@@ -2,9 +2,16 @@
 //! (1) component level: sequences of candidate populations fed to the real `BestIndividualUpdate`,
 //!     `BestIndividual::update`, `ElitistArchiveUpdate(k)` and `ElitistArchiveIntoPopulation`
 //!     (sizes 0–6, objective grid with ties, duplicates, +inf, capacities 0..7);
+//!     `feed`/`upd`/`arch`/`into` act on the current (top) population; `push`/`pop` insert / remove a
+//!     population UNDER it (bait individuals better than anything ever fed: a component reading anything but
+//!     the current population is noticed);
+//! (1b) scoped: real `Scope` trees around population setters, real `BestIndividualUpdate`s and probes of the
+//!     visible best individual (nesting up to depth 4);
 //! (2) run level: every run of all 21 templates: the values returned by the objective function per
 //!     leaf step, every best-update with the population it saw, and at the end the reported best
 //!     objective value vs. the minimum the objective function ever returned.
+use std::sync::{Arc, Mutex};
+
 use hcommon::problems::TagProblem;
 use hcommon::templates::*;
 use hcommon::*;
@@ -12,7 +19,9 @@ use mahf::components::archive::{ElitistArchive, ElitistArchiveIntoPopulation, El
 use mahf::components::evaluation::BestIndividualUpdate;
 use mahf::state::common::{BestIndividual, Populations};
 use mahf::verif::Phase;
-use mahf::{Component, Individual, SingleObjective, State};
+use mahf::components::Scope;
+use mahf::{Component, Configuration, ExecResult, Individual, SingleObjective, State};
+use serde::Serialize;
 
 type P = TagProblem;
 
@@ -76,11 +85,89 @@ fn run_bestarch(a: &[Sx]) -> String {
                 catch(|| ai.execute(&problem, &mut state).is_ok())
                     .and_then(|ok| ok.then(|| tagged("pop", state.populations().current().iter().map(ind_s))))
             }
+            // a population inserted UNDER the current one / the population under the current one removed
+            "push" => {
+                let mut pops = state.populations_mut();
+                let cur = pops.pop();
+                pops.push(mk_pop(&args[0]));
+                pops.push(cur);
+                Some(format!("(h {})", pops.len()))
+            }
+            "pop" => {
+                let mut pops = state.populations_mut();
+                if pops.len() >= 2 {
+                    let cur = pops.pop();
+                    pops.pop();
+                    pops.push(cur);
+                }
+                Some(format!("(h {})", pops.len()))
+            }
             other => panic!("unknown op {other}"),
         };
         let panicked = r.is_none();
         outs.push(r.unwrap_or("panic".into()));
         if panicked { break; } // the state may be half-updated after a panic: the history ends here
+    }
+    tagged("outs", outs)
+}
+
+// ---------------------------------------------------------------- scoped trees
+#[derive(Clone, Serialize)]
+struct SetPop {
+    #[serde(skip)]
+    pop: Vec<Individual<P>>,
+}
+impl Component<P> for SetPop {
+    fn execute(&self, _: &P, state: &mut State<P>) -> ExecResult<()> {
+        *state.populations_mut().current_mut() = self.pop.clone();
+        Ok(())
+    }
+}
+/// Reports the visible best individual.
+#[derive(Clone, Serialize)]
+struct Peek {
+    #[serde(skip)]
+    log: Arc<Mutex<Vec<String>>>,
+}
+impl Component<P> for Peek {
+    fn execute(&self, _: &P, state: &mut State<P>) -> ExecResult<()> {
+        self.log.lock().unwrap().push(best_s(state));
+        Ok(())
+    }
+}
+fn build_items(items: &[Sx], log: &Arc<Mutex<Vec<String>>>) -> Vec<Box<dyn Component<P>>> {
+    let mut v: Vec<Box<dyn Component<P>>> = vec![];
+    for it in items {
+        let (h, a) = it.head().unwrap();
+        match h {
+            "set" => v.push(Box::new(SetPop { pop: mk_pop(&a[0]) })),
+            // the visible best right after every update is part of the output
+            "bu" => {
+                v.push(BestIndividualUpdate::new::<P>());
+                v.push(Box::new(Peek { log: log.clone() }));
+            }
+            "peek" => v.push(Box::new(Peek { log: log.clone() })),
+            "scope" => v.push(Scope::new(build_items(a, log))),
+            other => panic!("unknown item {other}"),
+        }
+    }
+    v
+}
+/// `(scoped (prog ITEM…))`
+fn run_scoped(a: &[Sx]) -> String {
+    let items = a[0].head().unwrap().1;
+    let log = Arc::new(Mutex::new(vec![]));
+    let config: Configuration<P> = Configuration::builder().do_many_(build_items(items, &log)).build();
+    let problem = TagProblem;
+    let mut state: State<P> = State::new();
+    state.insert(Populations::<P>::new());
+    state.populations_mut().push(vec![]);
+    let r = catch(|| config.run(&problem, &mut state).is_ok());
+    let mut outs = log.lock().unwrap().clone();
+    match r {
+        Some(true) => {}
+        Some(false) => outs.push("err".into()),
+        None => outs.push("panic".into()),
     }
     tagged("outs", outs)
 }
@@ -159,20 +246,80 @@ fn run_case(input: &Sx) -> (String, String) {
     let (tag, a) = input.head().unwrap();
     match tag {
         "bestarch" => ("best-archive".into(), run_bestarch(a)),
+        "scoped" => ("scoped-best".into(), run_scoped(a)),
         "run" => (a[0].atom().unwrap().to_string(), run_run(a)),
         other => panic!("unknown case {other}"),
     }
 }
 
-const GRID: [f64; 8] = [0.0, 1.0, 1.0, 2.0, 3.0, f64::INFINITY, -1.0, f64::INFINITY];
+/// ties and exact duplicates are frequent; +inf twice; -0.0 == 0.0 as objective values; 1.0 and its two
+/// neighbours (1 ulp apart); the smallest subnormal; +-f64::MAX.
+const GRID: [f64; 16] = [
+    0.0, 1.0, 1.0, 2.0, 3.0, f64::INFINITY, -1.0, f64::INFINITY, -0.0, 1.0000000000000002, 0.9999999999999999, 5e-324,
+    f64::MAX, -f64::MAX, 2.0, 3.0,
+];
+/// few values, many individuals: long runs of ties
+const GRID_TIES: [f64; 4] = [1.0, 2.0, 2.0, f64::INFINITY];
 
-fn gen_ind(r: &mut Sm, uneval: bool) -> String {
-    let s = r.below(4);
-    if uneval && r.chance(1, 25) { format!("({s})") } else { format!("({s} {})", fx(*r.pick(&GRID))) }
+struct G {
+    uneval: bool,
+    ids: u64,
+    ties: bool,
 }
+fn gen_ind(r: &mut Sm, g: &G) -> String {
+    let s = r.below(g.ids);
+    if g.uneval && r.chance(1, 25) {
+        format!("({s})")
+    } else {
+        let v = if g.ties { *r.pick(&GRID_TIES) } else { *r.pick(&GRID) };
+        format!("({s} {})", fx(v))
+    }
+}
+/// sizes 0..6 mostly; sometimes 21..48 (beyond the insertion-sort range of `sort_unstable`, few distinct values
+/// over many solution ids, so that ties are really reordered)
 fn gen_pop(r: &mut Sm, uneval: bool) -> String {
-    let n = r.below(7);
-    list((0..n).map(|_| gen_ind(r, uneval)))
+    if r.chance(1, 12) {
+        let n = r.range(21, 48);
+        let g = G { uneval, ids: 60, ties: !r.chance(1, 4) };
+        list((0..n).map(|_| gen_ind(r, &g)))
+    } else {
+        let n = r.below(7);
+        let g = G { uneval, ids: 4, ties: false };
+        list((0..n).map(|_| gen_ind(r, &g)))
+    }
+}
+/// bait: individuals better than anything that is ever fed
+fn gen_bait(r: &mut Sm) -> String {
+    let n = r.range(1, 3);
+    list((0..n).map(|_| format!("({} {})", 90 + r.below(4), fx(if r.chance(1, 2) { -7.0 } else { *r.pick(&GRID) }))))
+}
+fn gen_small_pop(r: &mut Sm) -> String {
+    let n = r.below(4);
+    let g = G { uneval: false, ids: 4, ties: false };
+    list((0..n).map(|_| gen_ind(r, &g)))
+}
+/// items of a scoped program; `depth` = nesting still allowed
+fn gen_items(r: &mut Sm, depth: u32, budget: &mut u32) -> Vec<String> {
+    let n = r.range(1, 5);
+    let mut v = vec![];
+    for _ in 0..n {
+        if *budget == 0 { break; }
+        *budget -= 1;
+        match r.below(10) {
+            0..=2 => v.push(format!("(set {})", gen_small_pop(r))),
+            3..=5 => {
+                v.push(format!("(set {})", gen_small_pop(r)));
+                v.push("(bu)".into());
+            }
+            6 => v.push("(peek)".into()),
+            _ if depth > 0 => {
+                v.push(tagged("scope", gen_items(r, depth - 1, budget)));
+                v.push("(peek)".into());
+            }
+            _ => v.push("(bu)".into()),
+        }
+    }
+    v
 }
 
 fn main() {
@@ -193,21 +340,45 @@ fn main() {
     };
     let mut r = Sm::new(a.seed ^ 0xC07);
     // 1. component level: all capacities 0..=7
-    let per_k = if a.thorough { 4000 } else { 400 };
+    let per_k = if a.thorough { 4000 } else { 800 };
     for k in 0..=7u64 {
         for j in 0..per_k {
-            let uneval = a.thorough && j % 5 == 0;
+            let uneval = if a.thorough { j % 5 == 0 } else { j % 20 == 0 };
             let len = r.range(1, 8);
             let ops: Vec<String> = (0..len)
-                .map(|_| match r.below(10) {
+                .map(|_| match r.below(12) {
                     0..=2 => format!("(feed {})", gen_pop(&mut r, uneval)),
-                    3 => format!("(upd {})", gen_ind(&mut r, uneval)),
+                    3 => format!("(upd {})", gen_ind(&mut r, &G { uneval, ids: 4, ties: false })),
                     4..=7 => format!("(arch {})", gen_pop(&mut r, uneval)),
-                    _ => format!("(into {})", gen_pop(&mut r, uneval)),
+                    8..=9 => format!("(into {})", gen_pop(&mut r, uneval)),
+                    10 => format!("(push {})", gen_bait(&mut r)),
+                    _ => if r.chance(1, 3) { "(pop)".into() } else { format!("(push {})", gen_bait(&mut r)) },
                 })
                 .collect();
             emit(format!("(bestarch (k {k}) {})", tagged("ops", ops)));
         }
+    }
+    // 1a. long archive histories with capacities around and beyond the insertion-sort range
+    let n_long = if a.thorough { 400 } else { 80 };
+    for j in 0..n_long {
+        let k = *r.pick(&[1u64, 5, 19, 20, 21, 33, 64]);
+        let len = r.range(3, 6);
+        let ops: Vec<String> = (0..len)
+            .map(|_| {
+                let n = r.range(15, 40);
+                let g = G { uneval: false, ids: 80, ties: j % 2 == 0 };
+                let p = list((0..n).map(|_| gen_ind(&mut r, &g)));
+                if r.chance(1, 5) { format!("(into {p})") } else { format!("(arch {p})") }
+            })
+            .collect();
+        emit(format!("(bestarch (k {k}) {})", tagged("ops", ops)));
+    }
+    // 1b. scoped trees
+    let n_scoped = if a.thorough { 8000 } else { 1500 };
+    for _ in 0..n_scoped {
+        let mut budget = 14;
+        let items = gen_items(&mut r, 4, &mut budget);
+        emit(format!("(scoped {})", tagged("prog", items)));
     }
     // 2. run level
     let seeds: u64 = if a.thorough { 10 } else { 2 };
